@@ -148,7 +148,7 @@ func genWorkload(t *rapid.T) *workload {
 	// block by block with a tiny one, and the reverse)
 	w.recCache = w.cache
 	if rapid.IntRange(0, 2).Draw(t, "otherCacheAfterRestart") > 0 {
-		w.recCache = rapid.SampledFrom([]uint64{0, 1 << 10, 100 << 20}).Draw(t, "utxoCacheAfterRestart")
+		w.recCache = rapid.SampledFrom([]uint64{0, 200, 400, 700, 1 << 10, 1500, 2 << 10, 4 << 10, 8 << 10, 100 << 20}).Draw(t, "utxoCacheAfterRestart")
 		if w.cache == 100<<20 && rapid.Bool().Draw(t, "tinyAfterBig") {
 			w.recCache = 1
 		}
@@ -515,12 +515,19 @@ func TestCrashRecovery(t *testing.T) {
 		wh := ev.HashS(w.String())
 		for _, k := range ks {
 			for _, kill := range []bool{false, true} {
+				// every crash point restarts with a utxo cache size of its own (half of them keep the
+				// workload's): sizes of a few entries make the replay flush in the middle only
+				if rapid.IntRange(0, 3).Draw(t, "restartCachePerPoint") > 0 {
+					w.recCache = rapid.SampledFrom([]uint64{0, 1, 200, 300, 400, 550, 700, 850, 1 << 10, 1300, 1500, 2 << 10, 3 << 10, 4 << 10, 8 << 10, 100 << 20}).Draw(t, "restartCache")
+				} else {
+					w.recCache = w.cache
+				}
 				dir, atStep := crashRun(t, w, k, kill)
 				mode := "prefix"
 				if kill {
 					mode = "kill"
 				}
-				ctx := fmt.Sprintf("crash at commit %d/%d (step %d %s) %s image", k, ref.boundaries, atStep, stepName(w, atStep), mode)
+				ctx := fmt.Sprintf("crash at commit %d/%d (step %d %s) %s image, restarts with utxo cache %d", k, ref.boundaries, atStep, stepName(w, atStep), mode, w.recCache)
 				inside := k > first && ref.stepOf[k-1] == ref.stepOf[k] || k < ref.boundaries && ref.stepOf[k+1] == ref.stepOf[k]
 				cl := "between-operations"
 				switch {
